@@ -3,7 +3,7 @@
 (* calls, every input shape, every failure position.                         *)
 EXTENDS Compose, TLC, Json
 
-CONSTANTS MaxCalls, RepN
+CONSTANTS MaxCalls, RepN, Wide
 
 VARIABLES case, phase
 mcvars == <<case, phase>>
@@ -15,21 +15,43 @@ Bin(o, a, b) == [op |-> o, a |-> a, b |-> b]
 Un(o, a) == [op |-> o, a |-> a]
 Rep(n, a) == [op |-> "rep", n |-> n, a |-> a]
 
-T0 == {P, IdE, K}
-T1 == T0 \cup {Bin(o, a, b) : o \in {"then", "and"}, a \in T0, b \in T0}
+Sel == [op |-> "sel", id |-> 0]
+Ext == [op |-> "ext"]
+Sc(a) == [op |-> "scorer", a |-> a]
+
+T0 == {P, IdE, K, Sel, Ext}
+B0 == {P, IdE, K}
+B1 == B0 \cup {Bin(o, a, b) : o \in {"then", "and"}, a \in B0, b \in B0}
          \cup {Rep(n, P) : n \in RepN}
          \cup {Un(o, a) : o \in {"map_t", "map_a", "map_v"}, a \in {P, IdE}}
-T2 == T1 \cup {Bin(o, a, b) : o \in {"then", "and"}, a \in T1, b \in T1}
+T1 == T0 \cup {Bin(o, a, b) : o \in {"then", "and"}, a \in T0, b \in T0}
+         \cup {Rep(n, a) : n \in RepN, a \in {P, Sel}}
+         \cup {Un(o, a) : o \in {"map_t", "map_a", "map_v"}, a \in {P, IdE, Ext}}
+         \cup {Sc(a) : a \in T0}
+(* Wide: both sides of a binary combinator may be composite; otherwise one   *)
+(* side is atomic, except over the plain operators B1 (the quick configuration) *)
+T2 == T1 \cup (IF Wide THEN {Bin(o, a, b) : o \in {"then", "and"}, a \in T1, b \in T1}
+                       ELSE {Bin(o, a, b) : o \in {"then", "and"}, a \in B1, b \in B1}
+                            \cup {Bin(o, a, b) : o \in {"then", "and"}, a \in T1, b \in T0}
+                            \cup {Bin(o, a, b) : o \in {"then", "and"}, a \in T0, b \in T1})
          \cup {Rep(n, a) : n \in RepN, a \in T1}
          \cup {Un(o, a) : o \in {"map_t", "map_a", "map_v"}, a \in T1}
+         \cup {Sc(a) : a \in T1}
+(* the shape of the repository's own pipelines, one level deeper:             *)
+(* GenomeScorer(Select then GenomeExtractor then <variation>)                 *)
+SelExt == Bin("then", Sel, Ext)
+T3 == T2 \cup {Sc(Bin("then", SelExt, m)) : m \in T1}
+         \cup {Sc(Bin("then", Bin("and", SelExt, SelExt), m)) : m \in {Un(o, P) : o \in {"map_t", "map_a"}} \cup {P, IdE}}
 
 Inputs == { [x |-> Atom(3), s |-> SA],
             [x |-> PairV(Atom(1), Atom(2)), s |-> SP(SA, SA)],
             [x |-> ListV(<<>>), s |-> SL(0, SA)],
-            [x |-> ListV(<<Atom(1), Atom(2)>>), s |-> SL(2, SA)] }
+            [x |-> ListV(<<Atom(1), Atom(2)>>), s |-> SL(2, SA)],
+            [x |-> IndV(Atom(4), 9), s |-> SI(SA)],
+            [x |-> ListV(<<IndV(Atom(1), 5), IndV(Atom(2), 6), IndV(Atom(1), 7)>>), s |-> SL(3, SI(SA))] }
 
 Cases == { [e |-> Number(t, 1).e, x |-> i.x, failAt |-> f] :
-             t \in T2, i \in Inputs, f \in 0..(MaxCalls + 1) }
+             t \in T3, i \in Inputs, f \in 0..(MaxCalls + 1) }
 
 WellTyped(c) == \E i \in Inputs : i.x = c.x /\ OutShape(c.e, i.s).k # "bad"
 
@@ -49,14 +71,25 @@ StopsAtFirstFailure ==
 (* "the error identifies which part or which element failed" *)
 ErrorLocates ==
   ~R.ok => LET lf == Locate(case.e, R.path) IN
-           /\ lf.op = "leaf" /\ lf.id = R.st.log[Len(R.st.log)].id
+           /\ lf.op \in {"leaf", "sel"} /\ lf.id = R.st.log[Len(R.st.log)].id
            /\ R.path[Len(R.path)] = [s |-> "leaf", i |-> lf.id]
 (* the run without failure is a prefix-extension of the failing run *)
+(* the scorer sees exactly the genomes that were made, once each, and only  *)
+(* after its maker succeeded; a failing run never scores more than the run   *)
+(* without failure                                                           *)
+ScorerFaithful ==
+  LET full == Run(case.e, case.x, 0) IN
+  /\ Len(R.st.scored) <= Len(full.st.scored)
+  /\ \A n \in 1..Len(R.st.scored) : R.st.scored[n] = full.st.scored[n]
+  /\ (case.e.op = "scorer" /\ R.ok) =>
+        (R.v.k = "ind" /\ R.v.g = R.st.scored[Len(R.st.scored)] /\ R.v.r = ScoreOf(R.v.g))
+  /\ (case.e.op = "scorer" /\ ~R.ok) =>
+        R = [Run(case.e.a, case.x, case.failAt) EXCEPT !.st.scored = R.st.scored]
 PrefixOfFullRun ==
   LET full == Run(case.e, case.x, 0) IN
   \A n \in 1..Len(R.st.log) : R.st.log[n] = full.st.log[n]
 
 Emit == (phase = "pre") =>
   PrintT(<<"CASE", ToJson([case |-> case,
-                           exp |-> [ok |-> R.ok, v |-> R.v, path |-> R.path, log |-> R.st.log, words |-> R.st.pos]])>>)
+                           exp |-> [ok |-> R.ok, v |-> R.v, path |-> R.path, log |-> R.st.log, words |-> R.st.pos, scored |-> R.st.scored]])>>)
 =============================================================================
